@@ -85,6 +85,59 @@ func c13S1(tail int) func() string {
 	}
 }
 
+// S1-old: an OLDER snapshot stays frozen while the loader appends and newer snapshots trim under --tail.
+// The tail spans three chunks, so chunks that are in the middle of an older snapshot (shared by pointer) become
+// the trimmed first chunk of a newer one.
+func c13S1Old() string {
+	e := schedNewEnv()
+	tail := 2*chunkSize + 1
+	total := 4*chunkSize + 2
+	first := 3*chunkSize + 1
+	for i := 0; i < first; i++ {
+		e.cl.Push([]byte(fmt.Sprintf("a%d", i)))
+	}
+	done := make(chan bool, 1)
+	vsched.Go(func() {
+		for i := first; i < total; i++ {
+			e.cl.Push([]byte(fmt.Sprintf("a%d", i)))
+		}
+		vsched.Send(done, true)
+	})
+	texts := func(snap []*Chunk) string {
+		var sb strings.Builder
+		for _, ch := range snap {
+			for i := 0; i < ch.count; i++ {
+				sb.WriteString(ch.items[i].text.ToString())
+				sb.WriteByte(' ')
+			}
+		}
+		return sb.String()
+	}
+	var snaps [][]*Chunk
+	var frozen []string
+	var outs []string
+	for round := 0; round < 3; round++ {
+		snap, count, _ := e.cl.Snapshot(tail)
+		snaps = append(snaps, snap)
+		frozen = append(frozen, texts(snap))
+		outs = append(outs, fmt.Sprintf("n%d", count))
+		for k := range snaps {
+			if got := texts(snaps[k]); got != frozen[k] {
+				outs = append(outs, fmt.Sprintf("BAD snapshot %d changed after snapshot %d: %q -> %q", k, round, frozen[k], got))
+			}
+		}
+	}
+	vsched.Recv(done)
+	snap, _, _ := e.cl.Snapshot(tail)
+	_ = snap
+	for k := range snaps {
+		if got := texts(snaps[k]); got != frozen[k] {
+			outs = append(outs, fmt.Sprintf("BAD snapshot %d changed at the end: %q -> %q", k, frozen[k], got))
+		}
+	}
+	return strings.Join(outs, " ")
+}
+
 // S2: a canceller may set reqReset at any point of a scan: the scan is either cancelled (and publishes
 // nothing) or complete. Never a partial result.
 func c13S2() string {
@@ -280,7 +333,7 @@ func c13Run(t *testing.T, layer string, scs []schedScenario, q, th int) {
 }
 
 func TestVerif_C13_S1(t *testing.T) {
-	c13Run(t, "S1-snapshot-isolation", []schedScenario{{"S1", c13S1(0), schedBadPrefix}, {"S1-tail", c13S1(3), schedBadPrefix}}, 2, 3)
+	c13Run(t, "S1-snapshot-isolation", []schedScenario{{"S1", c13S1(0), schedBadPrefix}, {"S1-tail", c13S1(3), schedBadPrefix}, {"S1-old-snapshots", c13S1Old, schedBadPrefix}}, 2, 3)
 }
 func TestVerif_C13_S2(t *testing.T) {
 	c13Run(t, "S2-cancellation", []schedScenario{{"S2", c13S2, schedBadPrefix}, {"S2-loop", c13S2Loop, schedBadPrefix}}, 2, 3)
